@@ -16,6 +16,8 @@ import Desverif.Proofs.TimerSim
 import Desverif.Proofs.TimerSched
 import Desverif.Proofs.TimerTerm
 import Desverif.Proofs.TimerPrecise
+import Desverif.Proofs.TimerRegSim
+import Desverif.Proofs.TimerWake
 namespace C05
 open Timer
 
@@ -235,11 +237,92 @@ theorem sim_completions_not_early (progs : List (List (List (Nat × Fut)))) (s :
     been waited on is overdue (`OwnOk` — the scheduling fact `fires_exactly_once` / `woken_only_when_due`
     establish for registered entries), then every completion of such a sleep that this poll observes
     carries time = max(deadline, time of its first poll), i.e. exactly the deadline for `sleep d` /
-    `timeout d` and "immediately" for deadlines already reached.  The driver checks the unconditional
-    statement on every model run (verdict `reject clause=late-completion`). -/
+    `timeout d` and "immediately" for deadlines already reached.  `OwnOk` is discharged for whole
+    simulations by the registration invariant: `sim_completions_at_deadline` below is unconditional. -/
 theorem script_completions_at_deadline (f : Fut) (c : Ctx) (ho : OwnOk c.now f) (h : LogPrecise c.log) :
     LogPrecise (poll f c).2.log :=
   poll_precise f c ho h
+
+/-- **Completions at the deadline — for all scripts, unconditionally.**  In the complete run of the
+    scripted simulation of any plain scripts (any number of modules and tasks; sleep, sleep_until,
+    timeout, select, named timers with poll-once / reset to earlier or later deadlines / drop, intervals
+    with every MissedTickBehavior, shutdown / restart), as long as the clock stays below `SimTime::MAX`,
+    every observed completion of a `sleep`, `sleep_until` or `timeout` delay carries
+    time = max(deadline, time of its first poll): exactly the deadline for `sleep d` / `timeout d`,
+    "immediately" for deadlines already reached — never early, never late. -/
+theorem sim_completions_at_deadline (progs : List (List (List (Nat × Fut)))) (hsrc : SrcAll progs) (s : Sim)
+    (h : Sim.run next progs = some s) (hT : s.now < tMax) :
+    ∀ m ∈ s.mods, ∀ o ∈ m.log, o.own = true → ∀ d, o.due = some d → o.time = max d o.since :=
+  fun m hm o ho => (sim_mreg progs (srcAll_progs hsrc) s h hT m hm).log o ho
+
+/-- **The registration invariant behind it, for all scripts**: after the run every `Sleep` a task is
+    waiting on (owned by its running future, holding a handle) has its entry ⟨sleep id, task⟩ in the
+    queue slot of its deadline — so the wake-up invariant protects it —, sleep ids are pairwise
+    distinct over all tasks and named timers of the module, and a shut-down module has no tasks. -/
+theorem sim_registered_timers_have_entries (progs : List (List (List (Nat × Fut)))) (hsrc : SrcAll progs)
+    (s : Sim) (h : Sim.run next progs = some s) (hT : s.now < tMax) :
+    ∀ m ∈ s.mods,
+      (∀ (k : Nat) (t : Task), m.tasks[k]? = some t → ∀ sl ∈ ownL t.lines, sl.handle.isSome →
+        HasEntry m.timer.pending sl.deadline ⟨sl.id, k⟩) ∧
+      (∀ x, lcnt x m.tasks ≤ 1) ∧ (m.active = false → m.tasks = []) :=
+  fun m hm =>
+    have R := sim_mreg progs (srcAll_progs hsrc) s h hT m hm
+    ⟨fun k t hk sl hsl hh => ((R.reg k t hk sl hsl).2 hh), R.uq, R.idle⟩
+
+/-- **The simulation does not end while a live timer is awaited**: when the event loop stops because
+    the event set is empty (no limit involved), no task of any module is still waiting on a `sleep`,
+    `sleep_until` or `timeout` delay with a deadline below `SimTime::MAX`. -/
+theorem sim_ends_with_no_task_waiting (progs : List (List (List (Nat × Fut)))) (hsrc : SrcAll progs)
+    (fuel : Nat) (s' : Sim)
+    (hr : Sim.loop next fuel
+      (Sim.forAll next { mods := progs.map fun p => ({ progs := p } : Mod) } .start progs.length 0) = some s')
+    (hT : s'.now < tMax) :
+    ∀ m ∈ s'.mods, ∀ (k : Nat) (t : Task), m.tasks[k]? = some t →
+      ∀ sl ∈ ownL t.lines, sl.handle.isSome → tMax ≤ sl.deadline := by
+  have h1 := siminv_forAll (siminv_init progs) Kind.start progs.length 0
+  have h2 := (nowinv_forAll (nowinv_init progs) Kind.start progs.length 0).1
+  have h3 := rinv_forAll (siminv_init progs) (rinv_init (srcAll_progs hsrc)) tMax_pos Kind.start progs.length 0
+  exact loop_end_no_waiting h1 h2 h3 hr hT
+
+/-! ### the waker path: `next_wakeup` bookkeeping and the `AsyncWakeupEvent` scheduling rule -/
+
+/-- **Scheduling rule**: `deactivate` schedules at most one `AsyncWakeupEvent` per event — exactly when
+    the earliest live deadline is earlier than the recorded `next_wakeup`, which it then replaces;
+    otherwise it changes nothing.  (So several wake-up events of one module can be outstanding, even
+    for the same time; they are not cancelled — `stale_wakeup_harmless`.) -/
+theorem deactivate_schedules_rule (t : State) :
+    ((deactivate t) = t ∧ (∀ n, next t.pending = some n → t.nextWakeup ≤ n)) ∨
+    (∃ n, next t.pending = some n ∧ n < t.nextWakeup ∧
+      deactivate t = { t with nextWakeup := n, wakeups := t.wakeups ++ [n] }) :=
+  deactivate_rule t
+
+/-- **Bookkeeping invariant the code relies on**: between events, if any timer is live, a wake-up
+    event of the module is in the event set at `next_wakeup`, in the future and no later than the
+    earliest live deadline — for all histories (`wakeinv_all_histories`), shutdown / restart included
+    (`sim_wakeinv_all_scripts`). -/
+theorem wakeup_pending_for_earliest_live {now : Nat} {t : State} (h : WakeInv now t) {n : Nat}
+    (hn : next t.pending = some n) (hlt : n < tMax) :
+    t.nextWakeup ∈ t.wakeups ∧ now < t.nextWakeup ∧ t.nextWakeup ≤ n ∧
+    ∀ s ∈ t.pending, s.entries ≠ [] → n ≤ s.time :=
+  wakeup_for_earliest_live h hn hlt
+
+/-- **A stale wake-up event is harmless** (timers dropped / reset after it was scheduled, or a
+    wake-up of a previous incarnation firing after the restart): it wakes nobody, every registered
+    entry stays registered, and WakeInv holds afterwards. -/
+theorem stale_wakeup_is_harmless {now : Nat} {t : State} (h : WakeInv now t) (time : Nat)
+    (hw : ∀ w ∈ t.wakeups, time ≤ w) (hstale : ∀ s ∈ t.pending, s.entries ≠ [] → time < s.time) :
+    (stepEv t ⟨time, true, [], []⟩).2 = [] ∧
+    (∀ d x, HasEntry t.pending d x → HasEntry (stepEv t ⟨time, true, [], []⟩).1.pending d x) ∧
+    WakeInv time (stepEv t ⟨time, true, [], []⟩).1 :=
+  stale_wakeup_harmless h time hw hstale
+
+/-- **Wake order**: `activate` wakes the entries of the popped slots in deadline order, and an entry
+    joins its slot at the end — timers with equal deadlines are woken in registration order. -/
+theorem wake_order_is_registration_order (t : State) (e : Ev) {p : List Slot} (hp : Sorted p) {s : Slot}
+    (hs : s ∈ p) (x : Entry) :
+    (stepEv t e).2 = ((applyOps t e.pre).pending.takeWhile (fun s => s.time ≤ e.time)).flatMap (·.entries) ∧
+    (⟨s.time, s.entries ++ [x]⟩ : Slot) ∈ add p x s.time :=
+  ⟨woken_order t e, register_appends hp hs x⟩
 
 /-! ### the defect repaired by patches/C05-next-skips-empty-slots.diff (finding F3)
 
@@ -280,6 +363,9 @@ theorem orig_next_script_witness :
 
 /-! ### non-vacuity -/
 
+example : SrcAll f3Prog := by unfold SrcAll f3Prog; decide
+example : (Sim.run next f3Prog).map (fun s => decide (s.now < tMax)) = some true := by decide
+
 /-- a run of the scripted simulation that terminates within the fuel (hypothesis of the `sim_*` theorems):
     two modules, equal deadlines, a select whose loser is dropped, a reset, a restart -/
 example : (Sim.run next
@@ -292,6 +378,8 @@ example : (Sim.run next
 def exState : State :=
   { pending := [⟨5, []⟩, ⟨10, [⟨1, 0⟩, ⟨2, 1⟩]⟩, ⟨30, [⟨3, 2⟩]⟩], nextWakeup := 10, wakeups := [40, 10] }
 
+example : next exState.pending = some 10 := by decide
+example : ∀ s ∈ exState.pending, s.entries ≠ [] → 7 < s.time := by unfold exState; decide
 example : WakeInv 3 exState := by
   refine ⟨(by unfold Sorted; decide), ?_, ?_, ?_, ?_⟩
   · intro s hs hne
